@@ -45,6 +45,9 @@ type CLIOpts struct {
 	// default of 4 GiB. A blow-up then ends in a Go "fatal error: out of memory"
 	// in the child instead of endangering the machine.
 	MemLimitKB int64
+	// StdinFromFile: standard input is a regular file opened for reading (as with `< data.json`)
+	// instead of a pipe
+	StdinFromFile bool
 	// Fifos are created as named pipes in the private directory; a writer delivers the bytes
 	// once the binary opens the pipe, then closes it
 	Fifos map[string][]byte
@@ -118,6 +121,18 @@ func CLI(o CLIOpts) (*CLIResult, error) {
 	cmd.Dir = dir
 	cmd.Env = []string{"PATH=/usr/bin:/bin", "HOME=" + dir, "LANG=C"}
 	cmd.Stdin = bytes.NewReader(o.Stdin)
+	if o.StdinFromFile {
+		sp := filepath.Join(dir, ".stdin-data")
+		if err := os.WriteFile(sp, o.Stdin, 0o644); err != nil {
+			return nil, err
+		}
+		sf, err := os.Open(sp)
+		if err != nil {
+			return nil, err
+		}
+		defer sf.Close()
+		cmd.Stdin = sf
+	}
 	var so, se bytes.Buffer
 	cmd.Stdout, cmd.Stderr = &so, &se
 	err := cmd.Run()
